@@ -81,4 +81,133 @@ theorem all_missing_refused (disks : List ScanCount) (c : ScanCount) (hc : c ∈
 /-- non-vacuity: the seeded way to break it (treating 0 blocks as "unset") is excluded -/
 example : minParity [5, 0, 5] = 0 ∧ refuseParity false false [5, 0, 5] 5 = true := by decide
 
+/-! ### the lock: `flock` on the file named `<content>.lock`
+
+A lock is held on an inode, a command finds the inode through the name.  As long as nobody
+unlinks the name every command locks the same inode, hence at most one command holds a lock;
+a command that removes the lock file (for instance when it ends, even after being refused)
+breaks exactly this. -/
+
+structure LockSt where
+  /-- inode the path names (none: the file does not exist) -/
+  named : Option Nat
+  /-- next fresh inode number -/
+  fresh : Nat
+  /-- inode → the process holding the flock on it -/
+  holder : Nat → Option Nat
+
+inductive LockOp where
+  | acquire (p : Nat)     -- open(O_CREAT) + flock(LOCK_EX|LOCK_NB)
+  | release (p : Nat)     -- the process ends: its locks go away
+  | unlinkName            -- somebody removes the lock file
+
+def lockInit : LockSt := { named := none, fresh := 0, holder := fun _ => none }
+
+/-- returns the new state and, for `acquire`, whether the lock was granted -/
+def lockStep (s : LockSt) : LockOp → LockSt × Bool
+  | .acquire p =>
+    match s.named with
+    | some i =>
+      if s.holder i = none then ({ s with holder := fun j => if j = i then some p else s.holder j }, true)
+      else (s, false)
+    | none =>
+      let i := s.fresh
+      ({ named := some i, fresh := i + 1, holder := fun j => if j = i then some p else s.holder j }, true)
+  | .release p => ({ s with holder := fun j => if s.holder j = some p then none else s.holder j }, true)
+  | .unlinkName => ({ s with named := none }, true)
+
+def lockRun (s : LockSt) : List LockOp → LockSt
+  | [] => s
+  | o :: os => lockRun (lockStep s o).1 os
+
+def noUnlink : List LockOp → Prop
+  | [] => True
+  | .unlinkName :: _ => False
+  | _ :: os => noUnlink os
+
+/-- invariant without unlink: only the named inode can be locked, and fresh inodes are unlocked -/
+def LockInv (s : LockSt) : Prop :=
+  (∀ j, s.holder j ≠ none → s.named = some j) ∧ (∀ i, s.named = some i → i < s.fresh) ∧ (∀ j, s.fresh ≤ j → s.holder j = none)
+
+theorem lockInv_step (s : LockSt) (o : LockOp) (h : LockInv s) (ho : o ≠ .unlinkName) : LockInv (lockStep s o).1 := by
+  obtain ⟨h1, h2, h3⟩ := h
+  cases o with
+  | unlinkName => exact absurd rfl ho
+  | release p =>
+    refine ⟨?_, h2, ?_⟩
+    · intro j hj
+      simp only [lockStep] at hj ⊢
+      split at hj
+      · exact absurd rfl hj
+      · exact h1 j hj
+    · intro j hj
+      simp only [lockStep]
+      split
+      · rfl
+      · exact h3 j hj
+  | acquire p =>
+    simp only [lockStep]
+    split
+    · rename_i i hn
+      split
+      · refine ⟨?_, ?_, ?_⟩
+        · intro j hj
+          dsimp only at hj ⊢
+          by_cases hji : j = i
+          · subst hji; exact hn
+          · simp only [hji, if_false] at hj; exact h1 j hj
+        · intro i' hi'; dsimp only at hi' ⊢; exact h2 i' hi'
+        · intro j hj
+          dsimp only at hj ⊢
+          have hlt := h2 i hn
+          have : j ≠ i := by omega
+          simp only [this, if_false]; exact h3 j hj
+      · exact ⟨h1, h2, h3⟩
+    · rename_i hn
+      refine ⟨?_, ?_, ?_⟩
+      · intro j hj
+        dsimp only at hj ⊢
+        by_cases hji : j = s.fresh
+        · subst hji; rfl
+        · simp only [hji, if_false] at hj
+          have := h1 j hj; rw [hn] at this; cases this
+      · intro i hi; dsimp only at hi ⊢; simp only [Option.some.injEq] at hi; omega
+      · intro j hj
+        dsimp only at hj ⊢
+        have : j ≠ s.fresh := by omega
+        simp only [this, if_false]; exact h3 j (by omega)
+
+theorem lockInv_run (s : LockSt) (ops : List LockOp) (h : LockInv s) (hn : noUnlink ops) : LockInv (lockRun s ops) := by
+  induction ops generalizing s with
+  | nil => exact h
+  | cons o os ih =>
+    cases o with
+    | unlinkName => exact absurd hn (by simp [noUnlink])
+    | acquire p => exact ih _ (lockInv_step s _ h (by simp)) (by simpa [noUnlink] using hn)
+    | release p => exact ih _ (lockInv_step s _ h (by simp)) (by simpa [noUnlink] using hn)
+
+/-- **mutual exclusion**: as long as nobody removes the lock file, whatever commands start and end,
+    two different inodes are never locked at the same time - every holder holds THE named inode -/
+theorem lock_exclusive (ops : List LockOp) (hn : noUnlink ops) (i j : Nat)
+    (hi : (lockRun lockInit ops).holder i ≠ none) (hj : (lockRun lockInit ops).holder j ≠ none) : i = j := by
+  have inv0 : LockInv lockInit := by
+    refine ⟨?_, ?_, ?_⟩
+    · intro j h; exact absurd rfl h
+    · intro i h; simp [lockInit] at h
+    · intro j _; rfl
+  have inv := lockInv_run lockInit ops inv0 hn
+  have a := inv.1 i hi
+  have b := inv.1 j hj
+  rw [a] at b; exact Option.some.inj b
+
+/-- a second command is refused while the first one holds the lock (no unlink in between) -/
+theorem second_is_refused : (lockStep (lockStep lockInit (.acquire 1)).1 (.acquire 2)).2 = false := by decide
+
+/-- the refutation when the lock file is removed (e.g. by a refused command at its exit): the next
+    command is granted a lock although the first one still runs -/
+theorem lock_counter_unlink :
+    let s := lockRun lockInit [.acquire 1, .acquire 2, .unlinkName]
+    (lockStep s (.acquire 3)).2 = true ∧ (lockStep s (.acquire 3)).1.holder 0 = some 1 ∧ (lockStep s (.acquire 3)).1.holder 1 = some 3 := by
+  decide
+
 end SnapraidVerif.Props.C14
